@@ -160,3 +160,42 @@ def hoist_module(src: str) -> str:
                 if isinstance(sub, (ast.FunctionDef, ast.AsyncFunctionDef)):
                     h.generic_visit(sub)
     return ast.unparse(ast.fix_missing_locations(tree)) + "\n"
+
+
+class _Mirror(ast.NodeTransformer):
+    """`a < b` -> `b > a` (and <=, >=, ==, !=) for every single-operator comparison."""
+
+    M = {ast.Lt: ast.Gt, ast.Gt: ast.Lt, ast.LtE: ast.GtE, ast.GtE: ast.LtE, ast.Eq: ast.Eq, ast.NotEq: ast.NotEq}
+
+    def visit_Compare(self, node):
+        self.generic_visit(node)
+        if len(node.ops) == 1 and type(node.ops[0]) in self.M:
+            return ast.copy_location(ast.Compare(left=node.comparators[0], ops=[self.M[type(node.ops[0])]()], comparators=[node.left]), node)
+        return node
+
+
+def mirror_module(src: str) -> str:
+    tree = ast.parse(src)
+    _Mirror().visit(tree)
+    return ast.unparse(ast.fix_missing_locations(tree)) + "\n"
+
+
+class _FlipElse(ast.NodeTransformer):
+    """`if c: A else: B` -> `if not c: B else: A` for every if statement with a plain else block."""
+
+    def visit_If(self, node):
+        self.generic_visit(node)
+        if node.orelse and not (len(node.orelse) == 1 and isinstance(node.orelse[0], ast.If)):
+            t = node.test
+            if isinstance(t, ast.UnaryOp) and isinstance(t.op, ast.Not):
+                nt = t.operand
+            else:
+                nt = ast.UnaryOp(op=ast.Not(), operand=t)
+            node.test, node.body, node.orelse = nt, node.orelse, node.body
+        return node
+
+
+def flip_else_module(src: str) -> str:
+    tree = ast.parse(src)
+    _FlipElse().visit(tree)
+    return ast.unparse(ast.fix_missing_locations(tree)) + "\n"
